@@ -1,11 +1,14 @@
 /-
   Driver for the server model (C08, C13).
     hist <nconn> <nev> {<conn> <item>}*
+    hs <item>     → the first item of a connection through the TRANSCRIPTION of Daemon._handshake (Gen/C08Src.lean) on the
+                    world the item stands for:  <type>:<seq>:<ser>|<returned>   or  -|<returned>   (! = the exception left the function)
       item = G | X | T | M <type> <ser> <seq> <oneway> <body>
       body = U | US | H <wf> <ok> <a|r|u> | C X | C R | C M <token> <r|bs|bo|x> <g|s|c|o|y> <ser> <cb> <ann-list> <track-list> <untrack-list> <session>
     → per connection:  phase|type:seq:ser:exc,...|execs|hook|close|resClosed|tracked|slot|session   joined by " ; "
 -/
 import PyroModel.Server
+import PyroModel.Gen.C08Src
 import Driver.Util
 
 open Pyro.Server Driver
@@ -64,6 +67,14 @@ def step' : List String → String
       | some evs => " ; ".intercalate ((run (List.replicate nc {}) evs).map showConn)
       | none => "bad-op"
     | _, _ => "bad-op"
+  | "hs" :: rest =>
+    match parseItem rest with
+    | some (it, []) =>
+      match Pyro.Handshake.abstract (Pyro.Gen.C08Src.handshakeSrc (Pyro.Handshake.worldOf it) none) with
+      | some (some r, ok) => s!"{r.type}:{r.seq}:{r.serId}|{if ok then 1 else 0}"
+      | some (none, ok) => s!"-|{if ok then 1 else 0}"
+      | none => "!"
+    | _ => "bad-op"
   | _ => "bad-op"
 
 def main : IO Unit := runDriver step'
